@@ -26,7 +26,15 @@ that function are searched exhaustively (alone, both places, both project shapes
 threshold settings); a failing whole-corpus program is shrunk to the constructs that show it.
 
 Whole-main stage (props/c16main.py): the Lean model `MainRun` (= `Pipeline` ∘ `Diag`) predicts, from
-a module's AST alone, stdout / exit / buckets / printed lines of `main` under every setting.
+a module's AST alone, stdout / exit / buckets / printed lines of `main` under every setting — for every
+output mode (`MainRun.mainOut`: the IR document's "filename" / context file / symbol files, the cacheable
+document's "filepath", the stats rows) and three spellings of the target.
+
+Output-mode x spelling stage (props/c16out.py): one program, its target spelled in eight ways (short /
+deep relative, through `..`, absolute inside the root, below $HOME, elsewhere), x -o ir / cacheable /
+results / stats / silent and the cache file, x the settings: stdout bytes, exit status and cache-file
+bytes identical; every document field that names the target is the target as given. The whole-corpus
+site programs run under the path-bearing output modes too.
 """
 from __future__ import annotations
 
@@ -76,6 +84,13 @@ def inproc_many(jobs):
     if INPROC is None or len(jobs) < 2:
         return [_inproc_job(j) for j in jobs]
     return INPROC.run(jobs)
+
+
+def inproc_map(fn, jobs):
+    """fn (a module-level function) over jobs in the forked workers, in order."""
+    if INPROC is None or len(jobs) < 2:
+        return [fn(j) for j in jobs]
+    return INPROC.pool.map_async(fn, jobs, chunksize=2).get(timeout=3000)
 
 
 def argv_of(project, cfg, output="results"):
@@ -754,6 +769,44 @@ def site_judge(res, model, base, rng, tier, cov, heavy, heavy_futures, light_don
             res.violations[:] = shrunk + res.violations[:n1]
 
 
+class _SiteView:
+    """A site project seen as one (spelling, output mode) group of the output stage."""
+
+    def __init__(self, project):
+        self.project = project
+        self.prog = project.describe()
+        self.layout = project.layout
+        self.spelling = "site:" + ("relative-deep-in-root" if project.target_in_root else "absolute-under-home")
+        self.target_arg, self.base = project.target_arg, project.base
+
+
+def site_output_stage(res, recs, k):
+    """The whole-corpus site programs (every construct, in the target / in the deep import / mixed; target
+    absolute below $HOME or relative six parts deep) under the path-bearing output modes: the four -H / -T
+    combinations at one warning level, in-process, permissive; oracle = the output stage's."""
+    from props import c16out
+    a = dict(strict=False, threshold=0)
+    projects = []
+    for r in recs:
+        if all(r["project"] is not p for p in projects):
+            projects.append(r["project"])
+    jobs, meta = [], []
+    for pi, p in enumerate(projects):
+        for mi, mode in enumerate(c16out.PATH_MODES):
+            if mode != "ir" and (pi + k) % len(projects) != 0:
+                continue        # `-o ir` for every program, `-o cacheable` for one of them (rotating with the seed)
+            st = c16out.quad(dc.WARN[(k + pi + mi) % 4])
+            jobs += [(p, argv_of(p, full_cfg(a, s), mode), False) for s in st]
+            meta.append((p, mode, st))
+    outs = inproc_many(jobs)
+    for i, (p, mode, st) in enumerate(meta):
+        runs = [{"exit": o["exit"], "stdout": o["stdout"], "crash": o["crash"]} for o in outs[4 * i:4 * i + 4]]
+        try:
+            c16out.judge_group(res, differing_flags, _SiteView(p), a, mode, st, runs, "in-process")
+        except Exception as exc:
+            res.internal_errors.append({"what": f"site output stage: {type(exc).__name__}: {exc}", "program": getattr(p, "tag", "site program")})
+
+
 def directed_programs(res, base, new_readers, rng):
     """new_readers: [(file, qualified function)] not in `DiagSites.allowedReaders`. Trace every
     construct alone (sys.setprofile) and return the programs that execute one of these functions:
@@ -796,6 +849,9 @@ def run(tier, seed, build):
                 "threshold=total-1, strict}; plus programs from a corpus of constructs written per diagnostic call site of rattr "
                 "(whole corpus in the target / in an import six components below the root that imports a deeper module / mixed; "
                 "single constructs under strict; fatal constructs), judged in-process and re-judged through the CLI; "
+                "plus one fixed and one generated program whose target is spelled in eight ways (short / deep relative, through '..', "
+                "absolute inside the root / below $HOME / elsewhere) x -o ir|cacheable|results|stats|silent|cache file x the settings "
+                "(all 16 for the documents of the fixed program); "
                 "non-trivial = distinct (program, strict/threshold) whose dry run emits >= 1 diagnostic")
     rng = random.Random(seed)
     n = 8 if tier == "quick" else 150
@@ -822,6 +878,19 @@ def run(tier, seed, build):
         INPROC.close()
         INPROC = None
         dc.CLI_ENV_EXTRA = {}
+
+
+def output_programs(rng, tier, shaped):
+    """Programs of the output-mode x spelling stage: one fixed program (diagnostics of every -w class in
+    the target and in the deep import, no error: exit 0 and a document at every setting) on every
+    spelling x every mode; a generated one on the path-bearing modes (quick: three spellings)."""
+    from props import c16out
+    permissive = dict(strict=False, threshold=0)
+    progs = [(shaped[0], permissive, None, None)]
+    g = dc.gen_program(rng, fatal_rate=0.0, empty_rate=0.0)
+    names = ["rel_deep", "rel_updir", "abs_in_root", "abs_home", "abs_home_deep", "abs_elsewhere"]
+    progs.append((g, permissive, None if tier != "quick" else set(rng.sample(names, 3)), set(c16out.PATH_MODES)))
+    return progs
 
 
 def warm_bytecode_cache(base):
@@ -868,17 +937,48 @@ def _run(res, tier, seed, rng, progs, shaped):
         pool = CliPool()
         try:
             fut_a, fut_h = pool.submit(recs), pool.submit(heavy)
+            # every output mode x every spelling of the target (props/c16out.py): in-process now, its CLI part queued
+            from props import c16out
+            orng = random.Random(seed * 15485863 + 3)
+            out_finish = lambda: None  # noqa: E731
+            import time as _time
+            _t = _time.time()
+            try:
+                out_finish = c16out.run_output_stage(res, model, base / "out", output_programs(orng, tier, shaped), differing_flags,
+                                                     inproc_map, lambda jobs: [pool.ex.submit(dc.run_cli, *j) for j in jobs], rot=seed)
+            except Exception as exc:
+                res.internal_errors.append({"what": f"output stage: {type(exc).__name__}: {exc}"})
+            try:
+                site_output_stage(res, heavy, seed)
+            except Exception as exc:
+                res.internal_errors.append({"what": f"site output stage: {type(exc).__name__}: {exc}"})
+            res.extra.setdefault("stage_wall_s", {})["output-in-process"] = round(_time.time() - _t, 1)
+            _t = _time.time()
             suspicious = light_judge_all(res, model, light, cov=cov)      # in-process, while the CLI runs proceed
+            res.extra["stage_wall_s"]["site-light"] = round(_time.time() - _t, 1)
+            _t = _time.time()
             full_judge(res, model, recs, cov=cov, futures=fut_a)
+            res.extra["stage_wall_s"]["generated-cli"] = round(_time.time() - _t, 1)
+            _t = _time.time()
             site_judge(res, model, base, srng, tier, cov, heavy, fut_h, lambda: confirm(res, model, suspicious, cov=cov))
+            res.extra["stage_wall_s"]["site-heavy"] = round(_time.time() - _t, 1)
+            _t = _time.time()
+            try:
+                out_finish()
+                res.extra["stage_wall_s"]["output-cli"] = round(_time.time() - _t, 1)
+            except Exception as exc:
+                res.internal_errors.append({"what": f"output stage (cli): {type(exc).__name__}: {exc}"})
         finally:
             pool.close()
     # the whole `main` as ONE Lean model (Pipeline ∘ Diag) against the real one, per setting
     from props import c16main
+    import time as _time
+    _t = _time.time()
     try:
         c16main.run_main_stage(res, model, random.Random(seed * 104729 + 5), 3 if tier == "quick" else 60, tier, inproc=inproc_many)
     except Exception as exc:
         res.internal_errors.append({"what": f"main-model stage: {type(exc).__name__}: {exc}"})
+    res.extra.setdefault("stage_wall_s", {})["whole-main"] = round(_time.time() - _t, 1)
     res.extra["programs_generated"] = len(progs) + n_site
     res.extra["diagnostic_call_sites"] = cov.report()
     for b in cov.bad[:5]:
@@ -892,6 +992,10 @@ def _run(res, tier, seed, rng, progs, shaped):
         "denominator = sites whose DiagSites class is program-reachable (analysis / simplification / gate)",
         "whole-main stage (MainRun = Pipeline ∘ Diag): follow-imports 0, the pipeline model's fragment; the model gets the module's "
         "AST encoding and location facts only, never an event list of the implementation",
+        "output-mode x spelling stage: `-o stats` is compared on its deterministic rows (imports, lines, badness, threshold), not on "
+        "the timings; the in-process stdout capture stands for the real process' stdout (checked byte for byte on the CLI sample); "
+        "MainRun.mainOut fragment as MainRun (follow-imports 0: `import_irs` empty); the `imports` list and the hashes of the "
+        "cacheable document are compared across settings but not modelled",
         "a construct whose unresolved relative import is an uncaught exception (imported module, target outside the search "
         "path) is left to C07; site programs avoid it",
     ]
@@ -905,6 +1009,14 @@ def replay(path):
     prog, a = case.get("program"), case.get("analysis_cfg")
     if not prog or not a:
         return 0
+    if "spelling" in case and "site_items" not in prog:
+        from props import c16out
+        with dc.scratch_dir("rattr-c16-replay-") as base:
+            return c16out.replay_case(case, base.resolve())
+    if "single_file" in prog:
+        from props import c16main
+        with dc.scratch_dir("rattr-c16-replay-") as base:
+            return c16main.replay_case(case, base.resolve())
     with dc.scratch_dir("rattr-c16-replay-") as base:
         if "site_items" in prog:
             project = cs.SiteProject.from_description(base.resolve() / "p", prog)
@@ -915,8 +1027,13 @@ def replay(path):
         print("IMPORT " + str(project.helper_path.relative_to(project.root)) + " (padding stripped):\n" + project.helper_path.read_text().lstrip("\n"))
         if hasattr(project, "deeper_path"):
             print("IMPORT " + str(project.deeper_path.relative_to(project.root)) + " (padding stripped):\n" + project.deeper_path.read_text().lstrip("\n"))
+        output = case.get("output", "results")
         for s in SETTINGS:
-            r = dc.run_cli(project, argv_of(project, full_cfg(a, s), "results"))
-            print(skey(s), ("TRACEBACK " + crash_type(r)) if crashed(r) else "", "exit", r["exit"], "stdout", common.digest(r["stdout"]),
+            r = dc.run_cli(project, argv_of(project, full_cfg(a, s), output))
+            extra = []
+            if output != "results":
+                from props import c16out
+                extra = ["-o", output, "first path field:", (c16out.target_fields(output, r["stdout"]) or [None])[0]]
+            print(skey(s), ("TRACEBACK " + crash_type(r)) if crashed(r) else "", "exit", r["exit"], "stdout", common.digest(r["stdout"]), *extra,
                   "stderr", [f"{l['level']}:{l['file']}:{l['line']}" for l in r["lines"]])
     return 0
